@@ -398,7 +398,7 @@ func main() {
 				st.script[s.Slot] = append(st.script[s.Slot], s.V)
 			}
 			cur.Store(st)
-			tok := fmt.Sprintf("t%d-%d", *shard, idx)
+			tok := fmt.Sprintf("t%d-%d-%d", *shard, idx, try)
 			tr.Emit(vh.Ev{"ev": "run", "name": tok, "case": c})
 			atomic.StoreInt32(&inRun, 1)
 			mark := sched.Mark()
@@ -407,7 +407,7 @@ func main() {
 				<-reg.Arrived
 			}
 			upScript := map[string]string{"ok": "ok", "retry503": "s503,ok", "close": "close", "aterm": "gate", "lterm": "ok",
-				"atermA": "gate", "atermB": "gate", "atermC": "gate"}[c.Env]
+				"atermA": "gate", "atermB": "gate", "atermC": "gate", "atermD": "gate"}[c.Env]
 			prefix := "/r/"
 			if c.Env == "close" {
 				prefix = "/p/"
@@ -424,22 +424,28 @@ func main() {
 					method, body = "POST", "0123456789abcdef" // 16 bytes > max_entity_size 8
 				}
 			}
+			holdEarly := c.Env == "atermD"
+			if holdEarly {
+				sched.Hold("ds.wait")
+			}
 			cl, err := e2e.DialHTTP(addr)
 			vh.Must(err, "dial proxy")
 			vh.Must(cl.Send(method, prefix+"x?tok="+tok, hdr, body), "send")
 
 			diverged := false
-			if c.Env == "aterm" || c.Env == "atermA" || c.Env == "atermB" || c.Env == "atermC" {
+			if c.Env == "aterm" || c.Env == "atermA" || c.Env == "atermB" || c.Env == "atermC" || c.Env == "atermD" {
 				// the upstream holds the request: terminate the stream through a filter's handler meanwhile.
 				//   aterm  : while the upstream is silent
 				//   atermA : the upstream answers, its answer is held before the proxy's response CAS (gate us.recv.guard)
 				//   atermB : the upstream's answer won, the woken worker is held (gate ds.woken)
 				//   atermC : the global timeout (150 ms) won the response CAS, its callback is held (gate ds.gtimer.cas)
+				//   atermD : see below
 				holdAt := map[string]string{"atermA": "us.recv.guard", "atermB": "ds.woken", "atermC": "ds.gtimer.cas"}[c.Env]
 				if holdAt != "" {
 					sched.Hold(holdAt)
 				}
 				arrived := false
+				_ = holdEarly
 				var att int
 				select {
 				case a := <-reg.Arrived:
@@ -457,9 +463,29 @@ func main() {
 					}
 					ready = sched.AwaitArrive(holdAt, 8*time.Second)
 				}
+				if c.Env == "atermD" && ready {
+					// the worker is parked right before it waits for the upstream; from now on it is held when woken
+					ready = sched.AwaitArrive("ds.wait", 8*time.Second)
+					sched.Hold("ds.woken")
+					sched.Release("ds.wait")
+				}
 				if ready {
+					m2 := sched.Mark()
 					if !h.TerminateStream(asyncCode) { // success is recorded through the ds.hijack hook event
 						tr.Emit(vh.Ev{"ev": "aterm", "ok": false})
+					}
+					if c.Env == "atermD" {
+						//   atermD : the terminated request's worker is held (gate ds.woken) until the upstream's late
+						//            answer has arrived at the proxy and been dropped
+						if sched.AwaitArrive("ds.woken", 8*time.Second) {
+							reg.Release(tok, att)
+							_, seen := sched.AwaitEvent(m2, 5*time.Second, func(e gate.Event) bool { return e.Name == "us.recv" })
+							if !seen {
+								tr.Emit(vh.Ev{"ev": "note", "what": "late-upstream-answer-not-seen"})
+							}
+						} else {
+							diverged = true
+						}
 					}
 				} else {
 					diverged = true
